@@ -596,8 +596,11 @@ def _spec_form(ex, name, node, st):
         args = []
         for a in node.args:
             args += T.opt_inner(ex.ev(a, st)).terms
-        fn = z3.Function(name, *[a.sort() for a in args], ret.sorts()[0])
-        return V(ret, [fn(*args)])
+        srts = ret.sorts()
+        if len(srts) == 1:
+            fn = z3.Function(name, *[a.sort() for a in args], srts[0])
+            return V(ret, [fn(*args)])
+        return V(ret, [z3.Function(f"{name}#{j}", *[a.sort() for a in args], s_)(*args) for j, s_ in enumerate(srts)])
     if ((name in REG.opaque and name not in ex.c.reveal) or name in ex.c.hide) and not getattr(ex, "_tracing_reads", False):
         # opaque ghost function: uninterpreted in (arguments, the heap arrays its definition reads)
         hid = ex.c.hide.get(name)
@@ -682,7 +685,7 @@ def _opaque_reads(ex, name, argv, st):
     return reads
 
 
-UF_RET = {"uf_isWorkingTime": T.Bool, "uf_tzoff": T.Real, "uf_sbidx": T.Int, "uf_minsum": T.Int, "uf_dur": T.Real, "uf_lower": T.Str, "uf_path_of": T.Ref("Path"), "uf_os": T.Ref("OS"), "uf_bytes_of": T.Str, "uf_text_of": T.Str, "uf_sha256": T.Str, "uf_json_report_id": T.Str, "uf_encode": T.Str, "uf_bangs": T.Int, "uf_nobang": T.Str, "uf_tzvalid": T.Bool,
+UF_RET = {"uf_scen_specific": T.Bool, "uf_node_get": T.Ref("Value"), "uf_report_attr": T.Opt(T.Str), "uf_strftime": T.Str, "uf_str_dt": T.Str, "uf_isWorkingTime": T.Bool, "uf_tzoff": T.Real, "uf_sbidx": T.Int, "uf_minsum": T.Int, "uf_dur": T.Real, "uf_lower": T.Str, "uf_path_of": T.Ref("Path"), "uf_os": T.Ref("OS"), "uf_bytes_of": T.Str, "uf_text_of": T.Str, "uf_sha256": T.Str, "uf_json_report_id": T.Str, "uf_encode": T.Str, "uf_bangs": T.Int, "uf_nobang": T.Str, "uf_tzvalid": T.Bool,
           "uf_split": T.List(T.Str, region="strparts"), "uf_walk": T.Ref("Task"), "uf_walkok": T.Bool, "uf_inherited": T.Bool}
 
 
